@@ -62,12 +62,16 @@ def published_headers(chk):
     binary = bgrun.tool()
     # borrowed-return storage with and without a context, alternating
     cases = [("plugin-api", pm, None)] + [("s%d" % i, emit.random_model(chk.seed * 1000 + i, wrapped=True, wrapped_ctx=("" if i % 2 == 0 else "Arc")), None) for i in range(4 if chk.tier == "quick" else 40)]
-    compared = 0
+    compared = members = 0
     for name, model, _ in cases:
         w = os.path.join(WORK, "layout", chk.tier, "hdr-" + name)
         em = emit.emit(model)
         r = bgrun.run_tool(binary, w, em.text, config=None)
         if r["rc"] == 0 and r["text"]:
+            mv, k = bgrun.judge_members(em, model, r["text"])
+            members += k
+            for sig, d in mv[:1]:
+                chk.violation("C04:" + sig, "model %s: %s" % (name, d), dict(model=name, mode="C"))
             res = bgrun.drive(w, em, model, r["out_path"], r["text"])
             sv, k = bgrun.judge_sizes(em, model, res.get("sizes", {}), "C")
             compared += k
@@ -84,7 +88,7 @@ def published_headers(chk):
             compared += k
             for sig, d in sv[:1]:
                 chk.violation("C04:" + sig, "model %s: %s" % (name, d), dict(model=name, mode="C++"))
-    chk.part("published-headers", rust_types_measured=n, header_types_compared=compared)
+    chk.part("published-headers", rust_types_measured=n, header_types_compared=compared, container_member_lists_compared=members)
     chk.floor("header types compared with the Rust layout", compared, 8)
 
 
